@@ -460,6 +460,11 @@ def main(run):
         # fresh, repeat, delete the output and run
         pts = [{"edit": None, "edit_desc": None, "delete": d, "spec": cc.spec} for d in (False, False, True)]
         names = {s.name for s in cc.spec.structs()}
+        if cc.spec.dirarg == "abs":
+            # C08 drives this chain with an absolute [dir]; here it is run from inside the package directory
+            sp = copy.copy(cc.spec)
+            sp.dirarg = False
+            cc = c08.Case(cc.idx, sp, sp.cmd_file("chain.go"), sp.cmd_file("chain.go", sep=True), cc.sel, [sp.cmd_types(cc.sel)])
         if "Delta" in names or cc.spec.dirarg or "-short" in cc.spec.flags or cc.spec.sub == "rest":
             continue                       # the name-collision shapes and the [dir]-driven case stay with C08 (C07 has its own [dir] run)
         cmds = [cc.aio] if (cc.spec.sub == "map" or "Leaf" in names) else ([cc.aio, cc.perms[0]] if "Mid" in names else [cc.perms[0]])
